@@ -1,8 +1,12 @@
 import TlxVerif.Model.Drv
 import TlxVerif.Model.C01Step
+import TlxVerif.Model.C01Trace
 open TlxVerif TlxVerif.C01
 
-/-- line-protocol driver of the B+ tree model (C02: invariants, stats and the allocation ledger;
-the model is the one of C01, the answers carry the structure dump, `stats_` and the per-operation
-allocation counts) -/
-def main : IO Unit := Drv.loop ({} : St) step
+/-- line-protocol driver of the B+ tree model (C02: invariants, stats and the allocation ledger; the model is the one of C01).
+`drv trace`: every answer is followed by ` ;; ` and the branch labels of the erase case analysis the
+operation took in the model (Model/C01Trace.lean); `drv labels`: only the labels (and the dump for `size r`) -/
+def main (args : List String) : IO Unit :=
+  if args.contains "trace" then Drv.loop ({} : St) stepTrace
+  else if args.contains "labels" then Drv.loop ({} : St) stepLabels
+  else Drv.loop ({} : St) step
